@@ -9,6 +9,7 @@ import (
 	"io"
 	"os"
 	"path/filepath"
+	"strconv"
 	"strings"
 	"sync"
 	"time"
@@ -208,12 +209,25 @@ CHECK_DEADLOCK FALSE
 				run.Violation(fmt.Sprintf("C10:mixed-header-accepted:layout=%s", strings.Join(c.Layout, ",")), fmt.Sprintf("a passphrase identity (wrong passphrase) followed by an X25519 identity: the header %v, in which the passphrase stanza is not alone, was opened", c.Layout), map[string]interface{}{"check": "C10.mixed", "layout": c.Layout})
 			}
 		}
-		for _, via := range []string{"Unwrap", "Decrypt"} {
+		vias := []string{"Unwrap", "Decrypt"}
+		if len(c.Layout) == 1 && c.Layout[0] == "scrypt" && !c.Expected.Derive && actual <= c.Max {
+			vias = append(vias, "Unwrap-after-genuine") // history: the same identity value has just opened the genuine stanza (same salt, same body)
+		}
+		for _, via := range vias {
 			id, _ := age.NewScryptIdentity(pw)
 			id.SetMaxWorkFactor(c.Max)
+			if via == "Unwrap-after-genuine" {
+				g := *ss[0]
+				g.Args = append([]string(nil), g.Args...)
+				g.Args[1] = strconv.Itoa(actual)
+				if k, err := id.Unwrap([]*age.Stanza{(*age.Stanza)(&g)}); err != nil || !bytes.Equal(k, fk) {
+					run.Drift("the genuine stanza (work factor %d, maximum %d) was not opened: %v", actual, c.Max, err)
+					continue
+				}
+			}
 			takeDerived()
 			ok := false
-			if via == "Unwrap" {
+			if via == "Unwrap" || via == "Unwrap-after-genuine" {
 				var stz []*age.Stanza
 				for _, s := range ss {
 					stz = append(stz, (*age.Stanza)(s))
